@@ -129,7 +129,7 @@ func newOriginAnalysis(r *Run, cg *CallGraph, sanitizers ...string) *originAnaly
 //	param:<fn>#<i>         unresolved parameter (no static callers)
 func (oa *originAnalysis) originsOfExpr(p *packages.Package, fd *ast.FuncDecl, e ast.Expr, depth int) map[string]bool {
 	out := map[string]bool{}
-	if e == nil || depth > 6 {
+	if e == nil || depth > 14 {
 		return out
 	}
 	info := p.TypesInfo
@@ -213,7 +213,7 @@ func (oa *originAnalysis) originsOfVar(p *packages.Package, fd *ast.FuncDecl, v 
 		return m
 	}
 	out := map[string]bool{}
-	if oa.inProgress[v] || depth > 6 {
+	if oa.inProgress[v] || depth > 14 {
 		return out
 	}
 	oa.inProgress[v] = true
